@@ -272,6 +272,31 @@ PROPS["C20"] = dict(
                "'accepted values appear unchanged' is checked by the harness on every accepted document (not a theorem: it is a statement about yaml.v2).",
 )
 
+
+PROPS["C13"] = dict(
+    module="UpfVerif.Props.C13",
+    streams=[dict(name="buf", args=["net=212"], shards=3, shards_thorough=12, seed_per_shard=True, timeout=900, timeout_thorough=3000)],
+    rule="S-full buffering stream: the real PfcpServer (event loop running) with the real Gtp5g driver around the simulated kernel, a simulated SMF, BUFFER multicasts fed to the real "
+         "buffnetlink listener (with and without the 64-bit alignment PAD attribute), a UDP sink as gNB: sessions with 1-2 FARs (BUFF / BUFF|NOCP / FORW ...), 0-2 QERs (QFI 0, 1, 9, 63), 1-3 PDRs; "
+         "notifications for live / unknown / ended sessions and known / unknown PDRs, action words BUFF, NOCP, both, neither, payloads of 0..1400 octets, bursts of 2-7 and of 500-620 packets "
+         "(beyond the capacity 512); Update FAR among FORW/DROP/BUFF/NOCP combinations with FAR ID before or after Apply Action, with and without new forwarding parameters, unknown FAR; "
+         "Remove PDR / Create PDR re-using the id; session deletion and SEID re-use; every datagram at the sink and every Session Report Request at the SMF compared",
+    trusted_base=["model Model/Buf.lean of the buffering path across internal/forwarder/buffnetlink/server.go, internal/pfcp/report.go + node.go (Push/Pop/Close/RemovePDR), "
+                  "internal/forwarder/gtp5g.go applyAction/WritePacket over the data-plane tables, hand-written, tied by the S-full buffering stream",
+                  "simulated gtp5g kernel of the harness (GET_FAR / GET_PDR / GET_QER answers, FAR_RELATED_TO_PDR ascending), loopback UDP; "
+                  "Spec/GtpuRef.lean (independent TS 29.281 decoder) for the datagram contents (C14)"],
+    assumptions=["'the FAR's peer' = the outer header creation the data plane holds for the FAR when the switch happens (the code reads the FAR back before applying the update); "
+                 "the stricter reading (the parameters carried by the same Update FAR) is not claimed",
+                 "the data plane holds one PDR per (session, id) (hypothesis of applyAction_forw / _drop; maintained by establish / addPdr in the model)",
+                 "bursts are paced below the report queue capacity (overflow / wedging is C18)"],
+    level_text="Kernel-checked (Props/C13.lean): queue_prefix — after ANY sequence of pushes a PDR's queue is the first `cap` arrivals in order (the new packet is dropped when full, never an older one); "
+               "notify_spec — queued iff BUFF & payload & live session, Downlink Data Report iff NOCP & live; drain_exact / applyAction_forw / _drop — a release emits, PDR by PDR over exactly the PDRs "
+               "related to the FAR, every queued packet in order exactly once with the FAR's TEID and the PDR's QFI and leaves those queues empty (drain_idem: a second release emits nothing), other "
+               "queues untouched; datagram_wellformed (via C14) — each datagram is a G-PDU read back exactly; updateFar_frame; no_ghost / establish_fresh / removePdr_drops — nothing of an ended "
+               "session or a removed PDR can be emitted, also after SEID or PDR id re-use. Tie: S-full buffering stream on the real server + driver.",
+    level_note="Trusted: Lean kernel; hand-written Model/Buf.lean (checked against the real stack each run); simulated kernel. Fixed: stale queue after Remove PDR; Update FAR order dependence.",
+)
+
 # properties not claimed yet (kept current; every property has a planned executable model, see DESIGN.md)
 NOT_APPLICABLE = {}
 for _i in range(1, 21):
